@@ -77,8 +77,8 @@ exec_c20(const vcase *vc)
 					vr_tag("call_returned_enomem");
 					break;
 				}
-				if (base[i] == NNG_EBUSY)
-					continue; // (sockets owned by a device in the fault-free run; the device's own aio result is not in this list)
+				if (base[i] == NNG_EBUSY || base[i] == NNG_ECLOSED || base[i] == NNG_ENOENT)
+					continue; // (handle state that depends on an asynchronous operation - a device owning or having closed the sockets - whose own result is not in this list)
 				if (M.rcs[i] == -1000 || base[i] == -1000)
 					continue; // (-1000: the interpreter had nothing to call, e.g. no pipe to close)
 				const char *on = vc->ops[i + 2].name;
